@@ -861,3 +861,19 @@ mod test {
         );
     }
 }
+
+//============ Verification hooks ============================================
+
+/// Hooks for out-of-tree verification harnesses (not part of the API).
+#[cfg(nlnetlabs_domain_verif)]
+impl<Builder> NameBuilder<Builder> {
+    /// Creates a builder in an arbitrary internal state.
+    pub fn verif_from_parts(builder: Builder, head: Option<usize>) -> Self {
+        NameBuilder { builder, head }
+    }
+
+    /// Returns the start of the currently open label, if any.
+    pub fn verif_head(&self) -> Option<usize> {
+        self.head
+    }
+}
